@@ -166,7 +166,11 @@ def handleC14 : Handler := fun op j =>
       let descriptors ← getBool j "descriptors"
       let recs ← (← getArr j "records").toList.mapM c14Rec
       let H := c14HashFn (← c14Hashes (← getObj j "hashes"))
-      let lines := writeAll H descriptors [] recs
+      -- optional "fails": per record `true` when that write raises after the packer registered the descriptor
+      let fails : List Bool := match j.getObjVal? "fails" with
+        | .ok (Json.arr a) => a.toList.map (fun x => match x.getBool? with | .ok b => b | .error _ => false)
+        | _ => recs.map (fun _ => false)
+      let lines := writeHist H descriptors [] (recs.zip (fails.map (!·)))
       let read : Json := match readAll c14Laws H [] lines with
         | .ok rs => Json.mkObj [("ok", Json.arr (rs.map c14RecJ).toArray)]
         | .error e => c14Err e
